@@ -181,5 +181,6 @@ func goSliceDelete(obj *object, name string, throw bool) bool {
 		return true
 	}
 
-	return obj.delete(name, throw)
+	// an ordinary named property (obj.delete would dispatch to this function again)
+	return objectDelete(obj, name, throw)
 }
